@@ -146,7 +146,7 @@ func refTable(d Dialect, am *Model, a, b *Table) []Desc {
 		j := b.Index(i.Name)
 		if j == nil {
 			out = append(out, Desc{Kind: "DropIndex", Table: n, Object: i.Name})
-		} else if bits := refIndex(d, i, j); bits != 0 {
+		} else if bits := refIndexT(d, a, b, i, j); bits != 0 {
 			out = append(out, Desc{Kind: "ModifyIndex", Table: n, Object: i.Name, Bits: uint(bits)})
 		}
 	}
@@ -246,6 +246,55 @@ func or1(v int64) int64 {
 		return 1
 	}
 	return v
+}
+
+// defaultOpClass is the operator class PostgreSQL uses for an index part when none is spelled out, for
+// the (access method, column type) pairs this package uses (PostgreSQL documentation, Table "Built-in
+// B-Tree / GiST operator classes"; pg_opclass.opcdefault). "" = unknown: an explicit class is then
+// taken to be a non-default one.
+func defaultOpClass(i *Index, t *Table, p Part) string {
+	c := t.Column(p.Col)
+	if c == nil || i.Type != "" && !strings.EqualFold(i.Type, "BTREE") {
+		return ""
+	}
+	switch c.Type.T {
+	case "integer":
+		return "int4_ops"
+	case "bigint":
+		return "int8_ops"
+	case "smallint":
+		return "int2_ops"
+	case "text":
+		return "text_ops"
+	case "inet", "cidr":
+		return "inet_ops"
+	}
+	return ""
+}
+
+// refIndexT is refIndex with one refinement that needs the tables: spelling out the operator class that
+// is the default of the part's own side is the same as spelling out none, so two parts whose classes are
+// written differently differ only if they still differ after dropping such defaults.
+func refIndexT(d Dialect, ta, tb *Table, a, b *Index) schema.ChangeKind {
+	if d != Postgres || len(a.Parts) != len(b.Parts) {
+		return refIndex(d, a, b)
+	}
+	ca, cb := *a, *b
+	ca.Parts, cb.Parts = append([]Part(nil), a.Parts...), append([]Part(nil), b.Parts...)
+	for i := range ca.Parts {
+		pa, pb := &ca.Parts[i], &cb.Parts[i]
+		if pa.Ops == pb.Ops {
+			pa.Ops, pb.Ops = "", "" // written the same way on both sides: never a difference
+			continue
+		}
+		if pa.Ops != "" && pa.Ops == defaultOpClass(a, ta, *pa) {
+			pa.Ops = ""
+		}
+		if pb.Ops != "" && pb.Ops == defaultOpClass(b, tb, *pb) {
+			pb.Ops = ""
+		}
+	}
+	return refIndex(d, &ca, &cb)
 }
 
 func refIndex(d Dialect, a, b *Index) schema.ChangeKind {
